@@ -318,7 +318,15 @@ func (v *FnV) callWithArgs(st *State, call *ast.CallExpr, preArgs []Value) []Val
 		if nt, ok := types.Unalias(v.typeOf(fun)).(*types.Named); ok && sig != nil && nt.Obj().Pkg() != nil {
 			if fc, ok := v.e.cs.Funcs[nt.Obj().Pkg().Path()+"."+nt.Obj().Name()]; ok {
 				v.c.trusted["every value of function type "+nt.Obj().Name()+" is assumed to satisfy the type's contract"] = true
-				return v.contractCallSig(st, call, fc, nt.Obj().Name(), sig, nil, args)
+				v.noFunctional = true
+				res := v.contractCallSig(st, call, fc, nt.Obj().Name(), sig, nil, args)
+				v.noFunctional = false
+				if _, ok := fc.Extra["functional"]; ok && len(res) == 1 {
+					// the function VALUE is an argument of the functional symbol
+					all := append([]Value{{T: nt, S: fv.S}}, args...)
+					st.assume(sEq(res[0].S, v.functionalApp(fc, 0, res[0].T, all)))
+				}
+				return res
 			}
 		}
 		v.abstract(call, "call of function value (havoc)")
@@ -721,7 +729,7 @@ func (v *FnV) contractCallSig(st *State, call *ast.CallExpr, fc *FuncContract, n
 				v.c.trusted[shortName(fc.FullName())+" is treated as a mathematical function of its arguments ("+fns[0]+")"] = true
 			}
 		}
-		if _, ok := fc.Extra["functional"]; ok {
+		if _, ok := fc.Extra["functional"]; ok && !v.noFunctional {
 			var all []Value
 			if recv != nil {
 				rv := *recv
